@@ -3,18 +3,23 @@ import re
 
 
 def peer_nontrivial(tok, res):
-    if tok[0] == "login":
-        return True                      # both outcomes matter (accepted with a good key / refused with a bad one)
-    if tok[0] == "work":
+    if tok[0] in ("login", "ologin"):
+        return res != "seterr"           # both outcomes matter (accepted with a good key / refused with a bad one)
+    if tok[0] in ("work", "owork"):
         return res.startswith("pooled") or res.startswith("refused")
-    if tok[0] == "ping":
+    if tok[0] in ("ping", "oping"):
         return res.startswith("pong")
+    if tok[0] == "ssh":
+        return res.startswith("up:") or res in ("authfail", "closed")
     return False
 
 
 def peer_class(res):
     if res.startswith("ok:"):
         return "ok"
+    if res.startswith("up:"):
+        p = res.split(":")
+        return "up(ap=%s,%s)" % (p[3], p[4]) if len(p) == 5 else "up?"
     if res.startswith("x") or res == "empty":
         return "table(%d)" % (0 if res == "empty" else res.count(";") + 1)
     return res[:16]
@@ -36,32 +41,60 @@ PROP = {
             "Frp.C04.holdsOn_sound", "Frp.C04.model_holdsOn_login", "Frp.C04.model_holdsOn_ping",
             "Frp.C04.model_holdsOn_work_fixed", "Frp.C04.model_holdsOn_work_no_gateway",
             "Frp.C04.source_facts",
+            "Frp.C04.oidcVerify_iff", "Frp.C04.tokenValid_strict", "Frp.C04.oidc_login_claims",
+            "Frp.C04.oidc_ping_claims", "Frp.C04.oidc_work_claims", "Frp.C04.subjects_only_from_logins",
+            "Frp.C04.ssh_handshake_needs_key", "Frp.C04.gw_refused_unchanged", "Frp.C04.gw_unauthorized_no_session",
+            "Frp.C04.gw_up_needs", "Frp.C04.gw_noauth_needs_token", "Frp.C04.net_never_internal",
+            "Frp.C04.gw_allCfg", "Frp.C04.sys_alwaysPass_only_by_authorized_key",
+            "Frp.C04.model_holdsOn_login_oidc", "Frp.C04.model_holdsOn_ssh", "Frp.C04.source_facts_gateway",
         ],
         "engines": [
             {"name": "peer", "quick_n": 6000, "thorough_n": 30000, "thorough_seeds": 5,
              "search_n": 6000, "search_seeds": 3,
              "nontrivial": peer_nontrivial, "result_class": peer_class},
         ],
-        "rule": "peer engine: a real server.Service on loopback per episode (token auth with every subset of the scopes "
-                "{HeartBeats, NewWorkConns}; 2 of 8 episodes with a stub OIDC verifier); the harness is a raw peer using the "
-                "real codec over the real client connector (tcp, tls, websocket, kcp, quic; yamux/quic streams) and over the "
-                "internal listener; after every op the session table (run id, verifier kind, pool, cap, accepted pings, "
-                "proxies) is dumped through a verif hook and compared with the model. Non-trivial = logins, work connections "
-                "that were pooled or refused with a reply, pings answered; distinct = distinct (op line, result) pairs",
+        "rule": "peer engine: a real server.Service on loopback per episode, 12 kinds in turn: token auth with every subset "
+                "of the scopes {HeartBeats, NewWorkConns}; 2 of 12 with a stub OIDC verifier; 2 of 12 with auth.method=oidc "
+                "for real (the verifier NewService builds itself: auth.NewTokenVerifier -> go-oidc discovery + remote JWKS "
+                "against an in-process OpenID provider on loopback; every key of these episodes is fetched by the real frpc "
+                "side auth.NewOidcAuthSetter.SetLogin/SetPing/SetNewWorkConn from the provider's client-credentials "
+                "endpoint: issuer / audience (single, list) / expiry / nbf inside and outside the leeway / signing key, "
+                "alg none, HS256, damaged and transplanted signatures / non-JWT / endpoint failure; server options "
+                "audience, skipExpiryCheck, skipIssuerCheck; subjects changing between login and ping / work connection; "
+                "client and server scope settings agreeing and not); 2 of 12 with the ssh tunnel gateway enabled (host key "
+                "and authorized_keys made at run time; the harness is an in-process x/crypto/ssh client: authorized key, "
+                "unknown key, authorized public key without the private key, no key; authorized_keys rewritten, emptied, "
+                "removed, made unparsable, duplicate lines between connections; authorizedKeysFile not configured "
+                "(NoClientAuth) with right / wrong / no --token; tcp --remote_port 0 / stcp commands, unsupported type, "
+                "bad flag, proxy name clashes; a user connection through the tcp proxy echoed by the ssh client; network "
+                "and internal work connections naming gateway sessions). The harness is a raw peer using the real codec "
+                "over the real client connector (tcp, tls, websocket, kcp, quic; yamux/quic streams) and over the internal "
+                "listener; after every op the session table (run id, verifier kind, pool, cap, accepted pings, proxies) "
+                "is dumped through a verif hook and compared with the model. Non-trivial = logins, work connections that "
+                "were pooled or refused with a reply, pings answered, ssh connections; distinct = distinct (op line, "
+                "result) pairs",
         "trusted": COMMON_TRUST + [
             "model Frp/Model/AuthGate.lean written by hand from server/service.go (handleConnection, RegisterControl, "
             "RegisterWorkConn, RegisterVisitorConn), server/control.go (ControlManager, handlePing, pool, worker), "
             "pkg/auth/{token,oidc,pass}.go; tied by the peer engine",
             "util.GetAuthKey is abstract (H); the harness computes md5(token ++ decimal ts) itself with crypto/md5 and the "
             "engine compares keys against that digest, so a change of GetAuthKey shows up as a disagreement",
-            "go-oidc Verify is abstract (none = error / some subject); the engine uses a stub verifier installed through "
-            "the verif hook Service.VerifAuthSetVerifier (the real one needs an issuer on the network)",
+            "go-oidc Verify is modelled at claim level (issuer incl. the Google exception, audience, expiry, nbf leeway) "
+            "from coreos/go-oidc v3.14.1 verify.go with the oidc.Config auth.NewTokenVerifier builds; JWT parsing and "
+            "the signature check (jose.ParseSigned with the provider's algorithms + RemoteKeySet.VerifySignature) are the "
+            "abstract Prim.jwtClaims / Prim.jwtSigOk. Tied by the O episodes: the real verifier against the harness's "
+            "provider, the harness decodes every minted token itself (encoding/json, crypto/rsa) and compares it with "
+            "the op line; the stub episodes (verif hook Service.VerifAuthSetVerifier) remain for subject bookkeeping",
+            "the ssh handshake itself is golang.org/x/crypto/ssh (server and client): the model's SshAuth.pubkey k proved "
+            "abstracts 'the client signed with the private key of k'; tied by the S episodes (real gateway, real ssh client)",
+            "the harness's OpenID provider and ssh client (harness/eng_peer_auth.go) are test doubles written for this check",
             "translator translate/gen_authgatefacts.go (go/ast): regenerates Frp/Gen/AuthGateFacts.lean on every run - the bypass "
             "condition in RegisterControl, every internal-argument of HandleListener/handleConnection/RegisterControl calls, "
             "every write and read of ClientSpec.AlwaysAuthPass, the value of ssh NoClientAuth, every reference to "
             "auth.AlwaysPassVerifier; pinned by theorem C04.source_facts",
-            "read from the code, not machine-checked: svr.sshTunnelListener is handed only to ssh.NewGateway (service.go NewService); "
-            "the ssh handshake itself (golang.org/x/crypto/ssh PublicKeyCallback) is what authenticates a gateway user",
+            "the same translator lists every mention of svr.sshTunnelListener in server/ and of peerServerListener in pkg/ssh, "
+            "the PutConn calls of pkg/ssh and pkg/virtual, the order handshake -> virtual client in TunnelServer.Run and the "
+            "statements of NewGateway's PublicKeyCallback; pinned by theorem C04.source_facts_gateway",
             "hooks: server/verif_authgate.go (tag verif): VerifAuthSessions (read-only dump), VerifAuthInternalListener, "
             "VerifAuthSetVerifier",
         ],
@@ -73,13 +106,21 @@ PROP = {
             "with TCPMux on (default) HeartbeatTimeout defaults to -1 and the heartbeat watchdog is off altogether; the ping theorems are about lastPing",
             "the visitor manager's decision for NewVisitorConn is an input of the model (C08)",
             "concurrent logins appending to OidcAuthConsumer.subjectsFromLogin without a lock (DESIGN 7 #18) are not modelled",
+            "OIDC: subjectsFromLogin is one list per server, never shortened: 'the login's subject' means the subject of ANY "
+            "accepted login since frps started (theorem subjects_only_from_logins), not of the session the ping arrives on",
+            "OIDC: time is one abstract clock (Prim.now) in the unit of the exp/nbf claims; the engine uses tokens one hour "
+            "before / after now and an nbf two minutes ahead, nothing near the boundaries; go-oidc's Google issuer exception "
+            "is in the model but cannot be driven offline (discovery insists on the issuer URL)",
+            "ssh gateway: a connection that never sends a forward request and an exec command is closed after 3 s by "
+            "TunnelServer.Run; not driven (the model maps it to 'closed' like an unparsable command); the virtual client runs "
+            "with frpc defaults (pool 1, no heartbeats under tcpMux), which is what the gateway hard-codes",
         ],
     }
 
 META = {
         "engine": "lean+harness(peer)",
         "design_ref": "DESIGN.md §6 C04",
-        "technique": "Lean 4 model of the first-message dispatcher and heartbeat handler with abstract key function and OIDC verifier; theorems for all states, messages, plugin behaviours, and by induction over all event histories / refused bursts; differential correspondence against a real server.Service driven as a raw network peer over five transports and the internal listener",
-        "text": "Proof: a login is answered with success and a session appears only if the verifier RegisterControl selected accepted the login the plugins handed on; from a network listener that verifier is always the configured one and the outcome (state and reply) is identical for both values of client_spec.always_auth_pass; over every history without logins on the internal listener no session ever holds the always-pass verifier. With the HeartBeats scope on, a ping with a key that is not accepted leaves the whole state (lastPing included) unchanged and is answered Pong{Error}; the session is not closed by it. A work connection stays open (pooled) only if its run id names a live session, the verifier used accepts it and the pool has room; otherwise it is closed and the state is unchanged. Every sequence of refused first messages of any length leaves the server state literally unchanged; accepted logins / work connections touch no session with another run id. Kernel-checked, axioms propext/Quot.sound only. Tied per run by 6k (quick) operations against a real frps.",
-        "note": "Finding (known, witness theorem workconn_scope_witness): RegisterWorkConn verifies with the SESSION's verifier, so a work connection from a network listener naming the run id of an ssh-gateway (always-pass) session is pooled without a key even with the NewWorkConns scope on; repaired model behind AuthGate.workVerifierIsFixed (theorem workconn_scope_fixed), Go patch hooks/C04-fix-workconn-verifier.patch. Trusted: Lean kernel; the hand-written model; harness generators; the read-only facts about who reaches RegisterControl with internal = true. Not covered: MD5/OIDC cryptography, timestamp freshness (none exists), the ssh handshake itself.",
+        "technique": "Lean 4 model of the first-message dispatcher and heartbeat handler with abstract key function, the claim-level decision of the OIDC verifier (signature abstract) and the ssh tunnel gateway as the only producer of internal connections; theorems for all states, messages, plugin behaviours, and by induction over all event histories / refused bursts / system histories of network events and ssh tunnels; differential correspondence against a real server.Service driven as a raw network peer over five transports and the internal listener, as a real OIDC client of an in-process provider, and as a real ssh client of the gateway",
+        "text": "Proof: a login is answered with success and a session appears only if the verifier RegisterControl selected accepted the login the plugins handed on; from a network listener that verifier is always the configured one and the outcome (state and reply) is identical for both values of client_spec.always_auth_pass; over every history without logins on the internal listener no session ever holds the always-pass verifier. With the HeartBeats scope on, a ping with a key that is not accepted leaves the whole state (lastPing included) unchanged and is answered Pong{Error}; the session is not closed by it. A work connection stays open (pooled) only if its run id names a live session, the verifier used accepts it and the pool has room; otherwise it is closed and the state is unchanged. Every sequence of refused first messages of any length leaves the server state literally unchanged; accepted logins / work connections touch no session with another run id. OIDC: a key is accepted iff it parses, is signed by a key the provider publishes and its claims pass the checks auth.NewTokenVerifier configures (issuer unless skipIssuerCheck, configured audience among aud unless none is configured, exp / nbf unless skipExpiryCheck); sessions, heartbeats (scope on) and network work connections (scope on) need such a token, the latter two with a subject some accepted login in the history put into subjectsFromLogin. ssh gateway: with authorizedKeysFile configured the handshake succeeds only for a client that proves a key listed in the file as read at that moment, a client that fails it changes nothing, and over every history of network events and ssh tunnels no session holds the always-pass verifier unless such a client connected; without authorizedKeysFile the virtual client does not claim the exemption and a tunnel comes up only with the right --token. Kernel-checked, axioms propext/Quot.sound only. Tied per run by 6k (quick) operations against a real frps, incl. the real go-oidc verifier and the real ssh gateway.",
+        "note": "Finding (known, witness theorem workconn_scope_witness): RegisterWorkConn verifies with the SESSION's verifier, so a work connection from a network listener naming the run id of an ssh-gateway (always-pass) session is pooled without a key even with the NewWorkConns scope on; repaired model behind AuthGate.workVerifierIsFixed (theorem workconn_scope_fixed), Go patch hooks/C04-fix-workconn-verifier.patch. Trusted: Lean kernel; the hand-written model; harness generators; the read-only facts about who reaches RegisterControl with internal = true. Not covered: MD5 / JWT signature / ssh cryptography (abstract predicates, exercised through the real libraries by the engine), timestamp freshness (none exists).",
     }
